@@ -78,6 +78,7 @@ inductive Out
   | cleanup (f a : Nat)                -- cleanup a of frame f ran
   | frameDead (f : Nat)                -- coroutine frame f destroyed
   | sched (k : Nat)                    -- a schedule() operation of scheduler k was started
+  | schedCancel (k : Nat)              -- a schedule() operation of scheduler k saw a stop request and completed with done
   | root (o : Outcome)                 -- the receiver the root task is connected to was completed
   | terminate                          -- std::terminate (error / done inside a cleanup action)
   | fuelOut                            -- the evaluator ran out of fuel (never silence)
@@ -114,6 +115,7 @@ inductive Ctl
                                        --   (o = done: the unhandled_done path, body not resumed)
   | waitLeaf (i : Nat)                 -- suspended in co_await of body leaf i
   | waitHop                            -- the awaited leaf has completed; its result is queued on the scheduler
+  | waitSched (k : Nat)                -- suspended in `co_await schedule(k)` (stoppable: it sees the task's stop token)
   | waitCleanup (i : Nat) (o : Outcome)  -- a cleanup action of the top frame awaits leaf i; exit outcome o
   | waitBack (o : Outcome)             -- the internal reschedule-back cleanup waits for its scheduler; exit outcome o
   | waitJoin (o : Outcome)             -- the task is finished; the receiver will be completed with o when
@@ -123,8 +125,8 @@ inductive Ctl
   deriving DecidableEq, Repr
 
 inductive QItem
-  | hop (o : Outcome)                  -- `unstoppable(schedule())` after a non-affine leaf produced o; also the
-                                       --   schedule() of `co_await schedule(k)` itself (o = value 0)
+  | hop (o : Outcome)                  -- `unstoppable(schedule())` after a non-affine leaf produced o
+  | sched                              -- the schedule() of `co_await schedule(k)` itself
   | back                               -- the schedule() of a reschedule-back cleanup
   | stopReq                            -- the thunk's deferred stop request
   deriving DecidableEq, Repr
@@ -211,14 +213,14 @@ def execStep (s : St) (fr : Frame) (rest : List Frame) : St :=
   | .resched n :: k =>
     -- task.cpp transform_schedule_sender_impl_: the FIRST reschedule registers a cleanup that goes back to the
     -- scheduler the task was started on; then the task's scheduler is replaced and schedule(n) is awaited
-    if fr.resched then
-      let fr1 : Frame := { fr with kont := k, catching := false, sched := n }
-      schedHop { s with frames := fr1 :: rest } n (.value 0)
-    else
-      let fr1 : Frame :=
-        { fr with kont := k, catching := false, sched := n, resched := true,
-                  cleanups := (0, CK.back fr.sched) :: fr.cleanups, regd := 0 :: fr.regd }
-      schedHop (emit { s with frames := fr1 :: rest } (.reg fr.id 0)) n (.value 0)
+    let s1 : St :=
+      if fr.resched then { s with frames := { fr with kont := k, catching := false, sched := n } :: rest }
+      else emit { s with frames := { fr with kont := k, catching := false, sched := n, resched := true, cleanups := (0, CK.back fr.sched) :: fr.cleanups, regd := 0 :: fr.regd } :: rest } (.reg fr.id 0)
+    -- await_transform(*this, snd.base()): the raw schedule() sender, connected with the task's stop token
+    let s2 := emit s1 (.sched n)
+    if s.srcStopped then { emit s2 (.schedCancel n) with ctl := .resume .done }
+    else if s.inlineSched then s2
+    else { s2 with ctl := .waitSched n, queue := s2.queue ++ [.sched] }
 
 def resumeStep (s : St) (fr : Frame) (rest : List Frame) (o : Outcome) : St :=
   match o with
@@ -328,6 +330,9 @@ def deliverStop (s : St) : St :=
     match (specs i).kind with
     | .pending (some o) => leafDone s2 (specs i).affine s.topSched o
     | _ => s2
+  | .waitSched k =>
+    -- the pending schedule() operation is cancelled: it completes with done
+    { emit s1 (.schedCancel k) with ctl := .resume .done, queue := s1.queue.filter (fun q => q != .sched) }
   | _ => s1
 
 /-- the deferred stop request has completed (`receiver_t::set_value`): last one out continues -/
@@ -370,6 +375,10 @@ def onRun (s : St) : St :=
   | [] => s
   | .hop o :: q =>
     if s.ctl = .waitHop then settle specs { s with queue := q, ctl := .resume o } else { s with queue := q }
+  | .sched :: q =>
+    match s.ctl with
+    | .waitSched _ => settle specs { s with queue := q, ctl := .exec }
+    | _ => { s with queue := q }
   | .back :: q =>
     match s.ctl with
     | .waitBack o => settle specs { s with queue := q, ctl := .exit o }
